@@ -16,7 +16,7 @@ EXPLANATION = ("arma2psd is executed on symbolic complex coefficient vectors, sy
                "Fourier/multitaper/subspace values unchanged, minimum variance proportional).")
 BOUNDS = {
     "quick": "arma2psd: len(A), len(B) <= 2 complex, NFFT in {3,4,5,8}; classes: all 12 at their minimal sizes "
-             "(N 3..5, order 1, NFFT in {4,5}; real data, complex for the cheap ones)",
+             "(N 3..5, order 1, NFFT in {4,5}; real data, complex for the cheap ones); the flag toggled off -> on -> off on ONE object after a first estimate (12 classes, real data, NFFT=5)",
     "thorough": "arma2psd NFFT 3..8, len <= 2; classes real and complex, NFFT in {4,5}, order <= 2 where the estimator allows",
 }
 ASSUMPTIONS = ["floats modelled as exact reals; numpy.pi enters as the exact rational value of the double",
@@ -79,6 +79,28 @@ def case_scale(h, name, cplx, n, order):
         h.claim_eq("bin%d:scaled = unscaled*2pi/df" % k, b[k], a[k] * factor)
 
 
+def case_toggle(h, name, cplx, n):
+    """the same relation on ONE object whose flag is switched after a first estimate, and switched back"""
+    x = zoo.data(h, name, cplx)
+    fs = h.real('fs', positive=True)
+    p = zoo.make(name, x, n=n, fs=fs, scale=False)
+    try:
+        a = [v for v in zoo.psd_of(p)]
+        p.scale_by_freq = True
+        b = [v for v in zoo.psd_of(p)]
+        p.scale_by_freq = False
+        c = [v for v in zoo.psd_of(p)]
+    except zoo.Degenerate:
+        return
+    if not (len(a) == len(b) == len(c)):
+        h.fail("len", "%d %d %d" % (len(a), len(b), len(c)))
+        return
+    factor = 2 * math.pi * n / fs
+    for k in range(len(a)):
+        h.claim_eq("bin%d:off->on = unscaled*2pi/df" % k, b[k], a[k] * factor)
+        h.claim_eq("bin%d:off->on->off = unscaled" % k, c[k], a[k])
+
+
 def case_sampling(h, name, cplx, n, order):
     N = zoo.DEFAULT_N[name] + (order - 1)
     x = zoo.data(h, name, cplx, N)
@@ -133,4 +155,10 @@ def cases(tier, seed):
                                     timeout=60 if q else 300, max_paths=8, feas_timeout=3))
                     out.append(Case("sampling:" + tag, case_sampling, dict(name=name, cplx=cplx, n=n, order=order),
                                     timeout=60 if q else 300, max_paths=8, feas_timeout=3))
+    for name in zoo.ALL:
+        for cplx in ((False,) if q else (False, True)):
+            if cplx and name in zoo.NSYM:
+                continue
+            out.append(Case("toggle:%s:%s:NFFT=5" % (name, 'cx' if cplx else 're'), case_toggle, dict(name=name, cplx=cplx, n=5),
+                            timeout=60 if q else 300, max_paths=8, feas_timeout=3, wall=400 if q else 900))
     return out
